@@ -28,7 +28,25 @@ Definition base_align (l : loader) : N :=
 (* the loaders that keep a region deserialize eps-copy from it *)
 (* load_mem refuses up front a type whose native alignment exceeds the 64 bytes it can guarantee
    (align_of::<Self>() > align_of::<MemoryAlignment>()) *)
-Definition mem_precheck (t : ty) : bool := 64 <? align_of t.
+(* align_of::<T>() of rustc for any type of the grammar (Layout.align_of is about zero-copy types
+   only): heap-owning types are pointer-aligned, sums and ranges take the alignment of their
+   payload, derived types the largest alignment among repr(align) and their fields *)
+Fixpoint rust_align (t : ty) : N :=
+  match t with
+  | TPrim p => psize p
+  | TUnit | TPhantom _ | TRangeFull => 1
+  | TString | TBoxStr | TVec _ | TBoxSlice _ | TSliceRef _ | TSerIter _ => 8
+  | TArray _ t' | TTuple _ t' | TOption t' | TBound t' | TRange _ t' => rust_align t'
+  | TCF b c => N.max (rust_align b) (rust_align c)
+  | TStruct i fs => N.max (N.max 1 (a_align i)) (rust_align_fields fs)
+  | TEnum i vs => N.max (N.max 1 (a_align i)) (rust_align_variants vs)
+  end
+with rust_align_fields (fs : fields) : N :=
+  match fs with FNil => 1 | FCons _ _ t r => N.max (rust_align t) (rust_align_fields r) end
+with rust_align_variants (vs : variants) : N :=
+  match vs with VNil => 1 | VCons _ _ fs r => N.max (rust_align_fields fs) (rust_align_variants r) end.
+
+Definition mem_precheck (t : ty) : bool := 64 <? rust_align t.
 
 Definition load (l : loader) (base : N) (h : hdr) (t : ty) (file : list byte) : res (val * list byte * N) :=
   match l with
